@@ -30,10 +30,11 @@ const (
 )
 
 func slowIterations(in []byte) bool {
-	for _, n := range derNodes(in) {
-		if in[n.off] == 0x04 && n.clen == 4 {
-			v := binary.BigEndian.Uint32(in[n.off+n.hdr:])
-			if v > iterFast && v <= iterLimit {
+	// s2kparams is an OCTET STRING of four octets (04 04 xx xx xx xx) wherever it is nested - inside
+	// PA-DATA values, e-data, a TCP frame - so the raw bytes are scanned rather than a parse attempted.
+	for i := 0; i+6 <= len(in); i++ {
+		if in[i] == 0x04 && in[i+1] == 0x04 {
+			if v := binary.BigEndian.Uint32(in[i+2:]); v > iterFast && v <= iterLimit {
 				return true
 			}
 		}
